@@ -124,6 +124,17 @@ Proof.
   unfold rt_inv, rt_wf, cap_ok. vm_compute. repeat split; try discriminate; try reflexivity; intros; try discriminate; try lia.
 Qed.
 
+(** the order "compactRanges, then createMap" in RegularExpression::prepare matters: a map built before the compaction
+    keeps a stale fNonMapIndex, and the first-character set of  a?[a-c U+0436]  (ranges a-a, a-c, U+0436 before
+    compaction) no longer contains U+0436; built after the compaction it does *)
+Example T11_stale_map_refuted :
+  let lb := [(97, 97); (97, 99); (1078, 1078)] in
+  let l := compact_list lb in
+  l = [(97, 99); (1078, 1078)] /\ rmem l 1078 = true /\
+  rt_match_at (nonmap_index lb) l 1078 = false /\ rt_match_at (nonmap_index l) l 1078 = true /\
+  rt_match false l 1078 = true.
+Proof. vm_compute. repeat split. Qed.
+
 (** index safety: fElemCount never exceeds the fMaxCount the C++ computes (used by C01) *)
 Theorem T11_range_cap_add : forall fx t a b, cap_ok t -> (2 <= maxc t)%nat -> cap_ok (addRange fx t a b).
 Proof. exact addRange_cap. Qed.
